@@ -798,6 +798,22 @@ func genC20(w *bufio.Writer, tier string, rng *rand.Rand) {
 		add("ud", fmt.Sprintf("[ud,%d,%d,[]]", um, ua+1+rng.Intn(4)))
 		add("ud", fmt.Sprintf("[ud,%d,%d,[]]", ua+rng.Intn(3), um))
 		add("ud", fmt.Sprintf("[ud,%d,%d,%s]", um, ua, fmtInts(append([]int{2, um + ua - 3}, 1))))
+		if rng.Intn(3) == 0 { // large tie groups at the low ranks, several ranks (binomial coefficients beyond the exact table)
+			t := []int{21 + rng.Intn(6), 2 + rng.Intn(6), 2, 1 + rng.Intn(3), 1 + rng.Intn(6), 1, 2}
+			if rng.Intn(2) == 0 {
+				t[0], t[1] = t[1], t[0]
+			}
+			tot := 0
+			for _, x := range t {
+				tot += x
+			}
+			n1 := tot/2 - rng.Intn(3)
+			add("ud", fmt.Sprintf("[ud,%d,%d,%s]", n1, tot-n1, fmtInts(t)))
+		}
+		if rng.Intn(6) == 0 { // a long slice (thousands of values): chunked / parallel code paths
+			xs := tiedUnsorted(rng, 8190+rng.Intn(12), false)
+			add("f", fmt.Sprintf("[f,%s]", fmtFs(xs)))
+		}
 
 		pickObj := func(kind string) int {
 			var c []int
